@@ -225,6 +225,9 @@ def gen_namespace(rng, nsname, thorough, deps, want_blocks=True, main=True, gobj
         if want_blocks and rng.random() < 0.5:
             tl = ['%s%s:' % (P, e)] + ['@%s: value %d' % (m[0], m[1]) for m in members[:3]] + ['', 'Kinds of things.']
             block(tl, f_types)
+            if rng.random() < 0.4:
+                # a member documented in a block of its own as well (that block takes precedence)
+                block(['%s:' % members[0][0], '', 'The first one, documented on its own.', '', 'Since: 1.4'], f_types)
     for e in flags:
         n = rng.randint(1, 4)
         base = '%s_%s' % (p.upper(), snake(e).upper())
@@ -236,7 +239,7 @@ def gen_namespace(rng, nsname, thorough, deps, want_blocks=True, main=True, gobj
         if rng.random() < 0.7:
             params.append(['user_data', GPOINTER])
         D({'k': 'typedef_callback', 'name': P + owner + c, 'ret': rng.choice([['void'], ['named', 'gboolean'], ['basic', 'int']]),
-           'params': params, 'pointer': True}, f_types)
+           'params': params, 'pointer': rng.random() < 0.85}, f_types)      # typedef void (*F)(...) or typedef void F(...)
         if want_blocks and rng.random() < 0.5:
             block(['%s%s%s:' % (P, owner, c), '@%s: the %s' % (snake(owner), owner.lower())] +
                   (['@user_data: user data'] if len(params) > 1 else []) + ['', 'A callback.'], f_types)
@@ -249,7 +252,8 @@ def gen_namespace(rng, nsname, thorough, deps, want_blocks=True, main=True, gobj
             d['ctype'] = rng.choice(['guint8', 'guint16', 'gint64'])
         D(d, rng.choice(apis))
         if want_blocks and rng.random() < 0.3:
-            block(['%s:' % d['name'], '', 'A constant.'], d['file'])
+            block(['%s:%s' % (d['name'], rng.choice(['', '', ' (value 99)', ' (skip)'])), '', 'A constant.'] +
+                  (['', 'Stability: Unstable: may go away'] if rng.random() < 0.3 else []), d['file'])
     if rng.random() < 0.3:
         D({'k': 'extern_var', 'name': '%s_global_state' % p, 'type': ['basic', 'int']}, rng.choice(apis))
 
@@ -285,11 +289,14 @@ def gen_namespace(rng, nsname, thorough, deps, want_blocks=True, main=True, gobj
                 for n, t in params:
                     ann = ''
                     if t[0] == 'ptr' and n != 'self' and rng.random() < 0.4:
-                        ann = rng.choice([' (nullable)', ' (transfer none)', ' (nullable) (transfer none)'])
+                        ann = rng.choice([' (nullable)', ' (transfer none)', ' (nullable) (transfer none)', ' (allow-none)',
+                                          ' (attributes doc.role=input)', ' (nullable) (attributes a.b=c d.e=f)'])
                     if n == 'func':
                         ann = rng.choice(['', ' (scope call)', ' (scope async)'])
                     if rng.random() < 0.85:
                         tl.append('@%s:%s%s the %s' % (n, ann, ':' if ann else '', n))
+                if rng.random() < 0.08:
+                    tl.append('@bogus: documented, but not a parameter')
                 tl += ['', 'Does %s on a %s.' % (v.replace('_', ' '), r.lower()), 'Second line with <markup> & entities.']
                 if ret[0] != 'void':
                     rann = ''
@@ -408,16 +415,23 @@ def gen_namespace(rng, nsname, thorough, deps, want_blocks=True, main=True, gobj
             fn = D({'k': 'function', 'name': '%s_%s_get_children' % (p, sr), 'ret': ['ptr', ['named', 'GList']],
                     'params': [SELF]}, rng.choice(apis))
             if want_blocks and rng.random() < 0.8:
+                how = rng.choice(['(element-type %s.%s)' % (nsname, r), '(element-type %s.%s)' % (nsname, r),
+                                  '(type GLib.List(%s.%s))' % (nsname, r), '(type GLib.List(utf8))',
+                                  '(type GLib.HashTable(utf8,%s.%s))' % (nsname, r), '(type GLib.List(NoSuch.Thing))'])
                 block(['%s:' % fn['name'], '@self: the object', '', 'Children.', '',
-                       'Returns: (element-type %s.%s) (transfer container): the children' % (nsname, r)], fn['file'])
+                       'Returns: %s (transfer container): the children' % how], fn['file'])
         if cb_names and rng.random() < 0.35:
             fn = D({'k': 'function', 'name': '%s_%s_foreach' % (p, sr), 'ret': ['void'],
                     'params': [SELF, ['func', ['named', rng.choice(cb_names)]], ['user_data', GPOINTER],
                                ['notify', ['named', 'GDestroyNotify']]]}, rng.choice(apis))
             if want_blocks and rng.random() < 0.8:
                 block(['%s:' % fn['name'], '@self: the object',
-                       '@func: (scope notified) (closure user_data) (destroy notify): a function',
-                       '@user_data: data for @func', '@notify: destroy notify', '', 'Calls @func.'], fn['file'])
+                       rng.choice(['@func: (scope notified) (closure user_data) (destroy notify): a function',
+                                   '@func: (scope notified) (destroy notify): a function',
+                                   '@func: (scope notified): a function']),
+                       rng.choice(['@user_data: data for @func', '@user_data: (closure): data for @func',
+                                   '@user_data: (closure func): data for @func']),
+                       '@notify: destroy notify', '', 'Calls @func.'], fn['file'])
         if rng.random() < 0.25:
             fn = D({'k': 'function', 'name': '%s_%s_get_data' % (p, sr), 'ret': GPOINTER, 'params': [SELF, ['key', STRING_IN]]}, rng.choice(apis))
             if want_blocks:
@@ -459,7 +473,8 @@ def gen_namespace(rng, nsname, thorough, deps, want_blocks=True, main=True, gobj
                     'params': [['self', RP], ['value', ['ptr', ['basic', 'int']]], ['out_rec', RP],
                                ['quad', ['ptr', ['named', 'gdouble']]]]}, rng.choice(apis))
             if want_blocks:
-                block(['%s:' % fn['name'], '@self: the object', '@value: (inout): a value', '@out_rec: (out caller-allocates): result',
+                block(['%s:' % fn['name'], '@self: the object', '@value: (inout): a value',
+                       '@out_rec: %s: result' % rng.choice(['(out caller-allocates)', '(out)', '(out callee-allocates)', '(out) (optional)']),
                        '@quad: (array fixed-size=4) (not nullable): four numbers', '', 'Adjusts.'], fn['file'])
 
     # one rename-to pair at most (two of them aiming at one target would make order matter by design)
@@ -477,10 +492,17 @@ def gen_namespace(rng, nsname, thorough, deps, want_blocks=True, main=True, gobj
 
     for i in range(rng.randint(0, 3)):
         params = [['arg%d' % j, rand_param_type()] for j in range(rng.randint(0, 3))]
+        if rng.random() < 0.15:
+            params.append(['blob', ['ptr', ['const', ['void']]]])            # gconstpointer
+        if rng.random() < 0.1:
+            params.append([None, rand_basic()])                             # a parameter without a name
+        if rng.random() < 0.1:
+            params.append(['table', ['array', rand_basic(), None]])         # int table[]
         fn = D({'k': 'function', 'name': '%s_%s' % (p, rng.choice(['init', 'shutdown', 'version', 'check', 'configure']) + str(i)),
-                'ret': rng.choice([['void'], rand_basic(), STRING_IN]), 'params': params}, rng.choice(apis))
+                'ret': rng.choice([['void'], rand_basic(), STRING_IN, ['ptr', ['const', ['void']]]]), 'params': params,
+                'inline': rng.random() < 0.1}, rng.choice(apis))
         if want_blocks and rng.random() < 0.5:
-            block(['%s:' % fn['name']] + ['@%s: an argument' % n for n, _ in params] + ['', 'A plain function.'], fn['file'])
+            block(['%s:' % fn['name']] + ['@%s: an argument' % n for n, _ in params if n] + ['', 'A plain function.'], fn['file'])
     if rng.random() < 0.2:
         D({'k': 'function', 'name': '_%s_private_helper' % p, 'ret': ['void'], 'params': []}, rng.choice(apis))
     if rng.random() < 0.2:
